@@ -124,54 +124,82 @@ def read_rules(ctx, rep, impl):
 
 
 def zero_rule(ctx, rep, b, impl, is_async, rbb, rt, n):
-    sw = net.ready_value_switch(b, rbb, is_async)
+    """R5.2 for one read_buf site: the byte count it yields (the Ok / Continue payload of its - awaited, timed - result) is
+    tested against zero; the zero edge returns Err(Disconnected); the other edge goes back to decoding; a transport error is
+    returned.  Works for `match r { Ok(0) => .., Ok(_) => .., Err(e) => .. }` and for `let n = r?; if n == 0 { .. }` alike."""
     if is_async:
-        # timeout(...).await? yields Result<usize>: the outer `?` handles Elapsed; find the switch on that inner Result
         tmo = [x for x in b.calls_to(r"tokio::time::timeout::timeout$") if net.mentions_call_bb(b.origin(x[1]["args"][1]), rbb)]
-        sw = None
-        if len(tmo) == 1:
-            tr2 = net.try_of(b, tmo[0][0], True)
-            if tr2:
-                r = b.switch_on(lambda o: o[0] == "discr" and net.mentions_call_bb(o[1], tr2[0]) and o[1][0] != "call")
-                sw = r[0] if r else None
         rep.check("R5.2", "%s:timeout-wraps-read_buf:%d" % (impl, n), len(tmo) == 1, "the timeout must wrap the read_buf future", b.loc(rt["line"]), nontrivial=False)
-    if sw is None:
-        rep.fail("R5.2", "%s:result-match:%d" % (impl, n), "the result of read_buf is not matched on", b.loc(rt["line"]))
-        return
-    sbb, targets, otherwise, o = sw
-    ok_t, err_t = targets.get(0), targets.get(1)
-    if err_t is None:
-        err_t = otherwise
 
-    def is_ok_payload(oo):
+    def is_count(oo):
+        """the usize inside Ok(..)/Continue(..) of the value that read_buf produced"""
         x = oo
+        while x[0] == "cast":
+            x = x[4]
         if x[0] == "field":
             x = x[1]
-        return x[0] == "downcast" and x[3] == "Ok" and net.mentions_call_bb(oo, rbb)
-    zs = [s for s in b.switch_on(is_ok_payload) if b.dominates(sbb, s[0])]
-    zsw = [s for s in zs if 0 in s[1]]
+        return x[0] == "downcast" and x[3] in ("Ok", "Continue") and net.mentions_call_bb(oo, rbb) and not any(
+            y[0] == "downcast" and y[3] in ("Err", "Break") for y in _chain(oo))
+
+    zsw = []          # (switch block, zero target, non-zero target)
+    for sbb, targets, otherwise, o in b.switch_on(lambda oo: is_count(oo) or (oo[0] == "bin" and oo[1] in ("Eq", "Ne", "Gt", "Lt", "Ge", "Le") and
+                                                                          ((is_count(oo[2]) and oo[3][0] == "const") or (is_count(oo[3]) and oo[2][0] == "const")))):
+        if o[0] == "bin":
+            cl, k = (0, o[3][1]) if is_count(o[2]) else (o[2][1], 0)
+            if k is None or cl is None:
+                continue
+            a, c = (0, k) if is_count(o[2]) else (cl, 0)
+            truth0 = {"Eq": a == c, "Ne": a != c, "Gt": a > c, "Lt": a < c, "Ge": a >= c, "Le": a <= c}[o[1]]      # predicate value when the count is 0
+            a1, c1 = (1, k) if is_count(o[2]) else (cl, 1)
+            truth1 = {"Eq": a1 == c1, "Ne": a1 != c1, "Gt": a1 > c1, "Lt": a1 < c1, "Ge": a1 >= c1, "Le": a1 <= c1}[o[1]]
+            if truth0 == truth1:
+                continue          # not a zero test
+            f_t = targets.get(0, otherwise)
+            t_t = otherwise if 0 in targets else targets.get(1, otherwise)
+            zsw.append((sbb, t_t if truth0 else f_t, f_t if truth0 else t_t))
+        elif 0 in targets:
+            zsw.append((sbb, targets[0], otherwise))
+    # drop-elaboration duplicates: keep the dominating test
+    if len(zsw) > 1:
+        dom = [z for z in zsw if all(b.dominates(z[0], o2[0]) for o2 in zsw)]
+        zsw = dom or zsw
+    if not zsw:
+        rep.fail("R5.2", "%s:result-match:%d" % (impl, n), "the byte count read_buf returns is never tested against 0", b.loc(rt["line"]))
     rep.check("R5.2", "%s:zero-test:%d" % (impl, n), len(zsw) == 1, "expected one test of the byte count against 0 (found %d)" % len(zsw), b.loc(rt["line"]))
     if len(zsw) == 1:
-        zbb, ztargets, zother, zo = zsw[0]
-        kz = b.ret_kinds(ztargets[0])
+        zbb, zero_t, nonzero_t = zsw[0]
+        kz = b.ret_kinds(zero_t)
         rep.check("R5.2", "%s:zero-is-disconnect:%d" % (impl, n), kz == {"Err"}, "a transport read of 0 bytes must return Err(Disconnected) (found exits %s)" % sorted(kz), b.loc(rt["line"]),
                   sample={"impl": impl, "zero_exits": sorted(kz)})
         disc = False
-        for i in b.reach(ztargets[0]):
+        for i in b.reach(zero_t, avoid_edges={(zbb, nonzero_t)}):
             for st in b.blocks[i]["stmts"]:
                 if st["k"] == "assign" and st["rv"]["k"] == "agg" and st["rv"].get("adt") == "insim::error::Error" and st["rv"]["vname"] == "Disconnected":
                     disc = True
         rep.check("R5.2", "%s:disconnected-variant:%d" % (impl, n), disc, "the zero-read exit must construct Error::Disconnected", b.loc(rt["line"]), nontrivial=False)
         # a non-zero read goes on (back to decode): it must not return without having tried to decode, and must not be an error
-        kn = b.ret_kinds(zother)
+        kn = b.ret_kinds(nonzero_t)
         dblocks = {bb for bb, _t in b.calls_to(r"Codec::decode$")}
         rblocks = {bb for bb, t2 in b.calls() if (callee(t2)[0] or "").endswith("framed::Framed::read_buf")}
-        esc = b.reach_v(avoid_blocks=dblocks, via=zother, avoid_after=rblocks)
+        esc = b.reach_v(avoid_blocks=dblocks, via=nonzero_t, avoid_after=rblocks)
         rets = [i for i in esc if b.blocks[i]["term"] and b.blocks[i]["term"]["k"] == "return"]
         rep.check("R5.2", "%s:nonzero-continues:%d" % (impl, n), not rets,
                   "after a non-zero read the function can return without running decode on the new bytes (exits %s)" % sorted(kn), b.loc(rt["line"]))
-    ke = b.ret_kinds(err_t) if err_t is not None else set()
-    rep.check("R5.2", "%s:error-returned:%d" % (impl, n), ke == {"Err"} or ke == {"residual"}, "a transport error must be returned (found exits %s)" % sorted(ke), b.loc(rt["line"]))
+    rep.check("R5.2", "%s:error-returned:%d" % (impl, n), b.error_returned(rbb), "a transport error must be returned to the caller", b.loc(rt["line"]))
+
+
+def _chain(o):
+    x = o
+    for _ in range(30):
+        if not isinstance(x, tuple) or not x:
+            return
+        yield x
+        if x[0] in ("field", "downcast", "deref", "ref"):
+            x = x[1]
+        elif x[0] == "cast":
+            x = x[4]
+        else:
+            return
 
 
 def read_buf_rules(ctx, rep, impl):
